@@ -117,7 +117,7 @@ def buildFromStringProto (ext : Exts) (psm : Option PsmKey) : Outcome Schema :=
   | .panic w => .panic w
   | .ok (fmt, rules, looks) =>
     -- list rules: foreign key slots
-    let step2 : Outcome (Option String × Option String × Bool) :=
+    let step2 : Outcome (Option String × ListRules × Bool) :=
       match ext.list with
       | some (.foreignKey .uniqueString p) =>
         if fmt.isSome then .err "string format is not compatible with list.unique_string"
@@ -175,7 +175,7 @@ def mapUB (f : Int → Int) : UpperB → UpperB
 def mapLB (f : Int → Int) : LowerB → LowerB
   | .none => .none | .gt a => .gt (f a) | .gte a => .gte (f a)
 
-def listPayload (slot : ListExt → Option String) (l : Option ListExt) : ListRules := l.bind slot
+def listPayload (slot : ListExt → Option LRPayload) (l : Option ListExt) : ListRules := l.bind slot
 
 /-- `buildSchema`: message / enum / scalar dispatch on the proto kind -/
 def buildSchema (kind : ProtoKind) (ext : Exts) (psm : Option PsmKey) : Outcome Schema :=
